@@ -208,7 +208,7 @@ impl Property for C15 {
 	fn run(&self, tape: &[u32], ctx: &mut Ctx) -> CaseResult {
 		let mut src = Src::new(tape);
 		let g = gen_geo(&mut src);
-		let relation = src.index(11);
+		let relation = src.index(12);
 		ctx.describe(|| format!("relation {relation}; {g:?}"));
 		let out = render(&g)?;
 		let want = reference(&g);
@@ -381,6 +381,57 @@ impl Property for C15 {
 				}
 				let o = last_frame(&mut mgr, g.ibs)?;
 				ensure!(close(o.0, out.0 as f64, tol * 4.0) && close(o.1, out.1 as f64, tol * 4.0), "tween-ends-at-static-result", "after tweening listener and emitter to the geometry the output is {o:?}, a scene built there gives {out:?}; {g:?}");
+			}
+			10 => {
+				class = "distance-parameter-set-through-handle";
+				// a FromListenerDistance value installed with a handle setter keeps following the
+				// distance after its tween has finished
+				let mut mgr = default_manager(48000, g.ibs);
+				let mut listener = mgr.add_listener(v(g.listener_pos), q(g.listener_rot)).map_err(|_| Failure::simple("setup", "listener"))?;
+				let mut track = mgr.add_spatial_sub_track(&listener, v(g.emitter), SpatialTrackBuilder::new().attenuation_function(None).spatialization_strength(0.0)).map_err(|_| Failure::simple("setup", "track"))?;
+				track.play(ProbeSoundData::new(Signal::Dc(0.5, 0.5), None)).map_err(|_| Failure::simple("setup", "sound"))?;
+				let far = src.f64_uniform(20.0, 200.0);
+				let mapping = Mapping {
+					input_range: (0.0, far),
+					output_range: (kira::Decibels(0.0), kira::Decibels(-40.0)),
+					easing: Easing::Linear,
+				};
+				let dur = src.usize_in(0, 3) as f64 * g.ibs as f64 / 48000.0;
+				track.set_volume(
+					Value::FromListenerDistance(mapping),
+					Tween {
+						duration: Duration::from_secs_f64(dur),
+						..Default::default()
+					},
+				);
+				for _ in 0..4 {
+					last_frame(&mut mgr, g.ibs)?;
+				}
+				let expect = |lp: Vec3| -> f64 {
+					let d = (lp - v(g.emitter)).length() as f64;
+					let db = -40.0 * (d / far).clamp(0.0, 1.0);
+					0.5 * if db == 0.0 { 1.0 } else { 10f64.powf(db / 20.0) }
+				};
+				let m = magnitude(&g);
+				let tolv = 1e-5 + 0.5 * 4.6 * (4e-7 * m / far);
+				let o = last_frame(&mut mgr, g.ibs)?;
+				ensure!(close(o.0, expect(v(g.listener_pos)), tolv), "parameter-follows-listener-distance", "track volume linked to the listener distance through set_volume: output {}, expected {}; {g:?}", o.0, expect(v(g.listener_pos)));
+				// now the listener moves
+				let new_pos = v(g.emitter) + Vec3::new(src.f64_uniform(-1.0, 1.0) as f32, src.f64_uniform(-1.0, 1.0) as f32, src.f64_uniform(-1.0, 1.0) as f32) * (far as f32 * 0.6);
+				listener.set_position(
+					new_pos,
+					Tween {
+						duration: Duration::ZERO,
+						..Default::default()
+					},
+				);
+				for _ in 0..3 {
+					last_frame(&mut mgr, g.ibs)?;
+				}
+				let o = last_frame(&mut mgr, g.ibs)?;
+				let m2 = m.max(new_pos.abs().max_element() as f64);
+				let tolv = 1e-5 + 0.5 * 4.6 * (4e-7 * m2 / far);
+				ensure!(close(o.0, expect(new_pos), tolv), "parameter-follows-listener-distance", "after the listener moved, the volume linked through set_volume gives output {}, the new distance maps to {}; {g:?}", o.0, expect(new_pos));
 			}
 			_ => {
 				class = "nested";
